@@ -55,7 +55,7 @@ ASSUMPTIONS = [
     "the two preset functions are the harness's own (fixed path families depending on the number of operands only), "
     "registered once per process and never re-registered",
 ]
-REQUIRED_MONITORS = [
+REQUIRED_MONITORS = ["tree_objects_as_optimize", 
     "custom_impl_observed", "cached_vs_uncached", "value_vs_E1", "path_equal", "expr_reused_new_arrays", "collision_pool", "near_pairs",
     "constants_cached_vs_uncached", "constants_value_vs_E1", "constants_reused_new_arrays", "constants_near_pairs", "preset_path_model", "constants_all_operands",
 ]
@@ -139,6 +139,7 @@ def ensure_presets():
 def clear_caches():
     _iface._PATH_CACHE.clear()
     _iface._CONTRACT_EXPR_CACHE.clear()
+    TREE_FAMILY.clear()
 
 
 # ------------------------------ pool construction -------------------------- #
@@ -160,7 +161,7 @@ def make_pool(rng, tier):
     members.append(member(base))
     inds = [ix for ix in base.size_dict if any(ix in t for t in base.inputs)]
     choices = ["output_order", "size", "optimize", "strip", "impl", "prefer_einsum", "sort", "relabel", "explicit", "via", "impl_custom", "via", "impl_custom",
-               "constants", "constants", "preset", "preset"]
+               "constants", "constants", "preset", "preset", "trees", "trees"]
     rng.shuffle(choices)
     for what in choices[: rng.randint(3, 7)]:
         if what == "output_order" and len(base.output) >= 2:
@@ -205,6 +206,17 @@ def make_pool(rng, tier):
             ren = dict(zip(base.size_dict, syms))
             net = gen.Net([[ren[i] for i in t] for t in base.inputs], [ren[i] for i in base.output], {ren[k]: v for k, v in base.size_dict.items()}, base.cls)
             members.append(member(net, tag=what))
+        elif what == "trees" and inds and not any(m["tag"].startswith("tree:") for m in members):
+            # ContractionTree OBJECTS as optimize: one tree and trees derived from it without modifying it
+            # (non-inplace remove_ind).  Each is its own contraction specification; the per-tree cache of
+            # compiled contractions must not leak between them whatever the order of the calls
+            ssa = gen.random_ssa(rng, n)
+            members.append(member(base, optimize={"tree": ssa, "sliced": []}, tag="tree:orig"))
+            ix1 = rng.choice(inds)
+            members.append(member(base, optimize={"tree": ssa, "sliced": [ix1]}, tag="tree:sliced"))
+            rest = [ix for ix in inds if ix != ix1]
+            if rest and rng.random() < 0.6:
+                members.append(member(base, optimize={"tree": ssa, "sliced": [ix1, rng.choice(rest)]}, tag="tree:sliced2"))
         elif what == "explicit":
             lin = ref.ssa_to_linear_model(gen.random_ssa(rng, n), n)
             form = rng.choice(["tuple", "list", "list_of_lists", "edge"])
@@ -270,10 +282,34 @@ def freeze(x):
     return x
 
 
+TREE_FAMILY = {}
+
+
+def tree_of(m):
+    """the tree objects of one history: built once (clear_caches() forgets them), the sliced ones DERIVED from
+    the original by non-inplace remove_ind, so that they are copies of one another"""
+    from cotengra.core import ContractionTree
+
+    spec = m["optimize"]
+    net = gen.Net.from_json(m["net"])
+    fam = TREE_FAMILY.setdefault(repr(spec["tree"]), {})
+    if () not in fam:
+        fam[()] = ContractionTree.from_path(net.inputs, net.output, net.size_dict, ssa_path=[tuple(p) for p in spec["tree"]])
+    key = ()
+    for ix in spec["sliced"]:
+        nk = key + (ix,)
+        if nk not in fam:
+            fam[nk] = fam[key].remove_ind(ix)
+        key = nk
+    return fam[key]
+
+
 def thaw_optimize(m):
     """optimize values are stored JSON-ably: restore tuples where the tag says so"""
     opt = m["optimize"]
     tag = m["tag"]
+    if tag.startswith("tree:"):
+        return tree_of(m)
     if isinstance(opt, str):
         return opt
     if tag.startswith("explicit:tuple"):
@@ -378,6 +414,8 @@ def run_history(rep, case):
             # failures observed on an expression with constants carry their own kind
             return ("constants_" + kind) if flag else kind
 
+        if m.get("tag", "").startswith("tree:"):
+            rep.mon("tree_objects_as_optimize")
         prev = last_api_member.get(api)
         if prev is not None and prev != mi:
             rep.mon("near_pairs")
